@@ -3,6 +3,8 @@ package main
 import (
 	"fmt"
 	"go/token"
+	"go/types"
+	"strings"
 
 	"golang.org/x/tools/go/ssa"
 )
@@ -147,5 +149,208 @@ func (c *Ctx) ruleQueue() {
 		})
 		ok := rm != nil && del != nil && rm.Block().Dominates(del.Block())
 		c.ob("R-DUP", name+":heap-removal-then-txs-delete", f.Pos(), ok, "an item removed from the heap is deleted from txs on every path (else it is refused as duplicate forever / yielded twice)")
+	}
+}
+
+// R-HEAPINDEX: the position an element records about itself is the position it has in the heap's slice.
+// The field is found by role: it is what the package hands to heap.Remove / heap.Fix as the position.
+func (c *Ctx) ruleHeapIndex(dir string) {
+	sp := c.ssaPkg(dir)
+	if sp == nil {
+		return
+	}
+	c.doc("R-HEAPINDEX", "the element field handed to heap.Remove/heap.Fix as position is maintained by the heap.Interface methods: Push records len(slice) taken before the append (or len-1 after it) on every path, Swap records for each of the two slots the index of the slot the element now occupies, and nothing else stores a non-negative value into it")
+	var idx *types.Var
+	var heapT types.Type
+	var user ssa.Instruction
+	for _, f := range allFuncs(c, sp) {
+		eachInstr(f, func(_ *ssa.BasicBlock, _ int, in ssa.Instruction) {
+			call, ok := in.(*ssa.Call)
+			if !ok {
+				return
+			}
+			switch calleeName(&call.Call) {
+			case "container/heap.Remove", "container/heap.Fix":
+			default:
+				return
+			}
+			if _, fv, ok := fieldLoad(stripConv(call.Call.Args[1])); ok && fv != nil {
+				idx, user = fv, call
+				if mi, ok := call.Call.Args[0].(*ssa.MakeInterface); ok {
+					heapT = mi.X.Type()
+				}
+			}
+		})
+	}
+	if idx == nil || heapT == nil {
+		c.unresolved("a heap.Remove/heap.Fix call whose position argument is a field of the element (" + dir + ")")
+		return
+	}
+	c.ob("R-HEAPINDEX", "position-field:"+idx.Name(), user.Pos(), true, "heap.Remove/heap.Fix is positioned by the element's field "+idx.Name()+"; heap type "+relName(heapT.String()))
+	isIdx := func(fa *ssa.FieldAddr) bool { v := fieldVar(fa); return v != nil && v == idx }
+	method := func(name string) *ssa.Function {
+		ms := c.prog.MethodSets.MethodSet(heapT)
+		for i := 0; i < ms.Len(); i++ {
+			if ms.At(i).Obj().Name() == name {
+				if fn, ok := ms.At(i).Obj().(*types.Func); ok {
+					return c.prog.FuncValue(fn) // the declared method, not the pointer-receiver wrapper
+				}
+			}
+		}
+		return nil
+	}
+	// --- Push
+	if push := method("Push"); push == nil || len(push.Blocks) == 0 {
+		c.unresolved("Push method of " + heapT.String())
+	} else {
+		recv := push.Params[0]
+		var recvStores []ssa.Instruction
+		var idxStores []*ssa.Store
+		eachInstr(push, func(_ *ssa.BasicBlock, _ int, in ssa.Instruction) {
+			st, ok := in.(*ssa.Store)
+			if !ok {
+				return
+			}
+			if st.Addr == ssa.Value(recv) {
+				recvStores = append(recvStores, st)
+			}
+			if fa, ok := st.Addr.(*ssa.FieldAddr); ok && isIdx(fa) {
+				idxStores = append(idxStores, st)
+			}
+		})
+		ok, why := len(idxStores) > 0, "Push never records the new element's position: it keeps a stale (zero) position and heap.Remove/heap.Fix act on another element"
+		for _, st := range idxStores {
+			v := stripConv(st.Val)
+			off := int64(0)
+			if b, isB := v.(*ssa.BinOp); isB && b.Op == token.SUB {
+				if k, isC := constInt(b.Y); isC {
+					off, v = -k, stripConv(b.X)
+				}
+			}
+			call, isCall := v.(*ssa.Call)
+			good := false
+			if isCall && calleeName(&call.Call) == "builtin.len" {
+				if ld, isLd := call.Call.Args[0].(*ssa.UnOp); isLd && ld.Op == token.MUL && ld.X == ssa.Value(recv) {
+					before := true // the length was read before the slice grew
+					for _, rs := range recvStores {
+						if instrReaches(rs, ld) && !instrReaches(ld, rs) {
+							before = false
+						}
+					}
+					good = (before && off == 0) || (!before && off == -1)
+					if !good {
+						why = fmt.Sprintf("Push records len(slice)%+d read %s the append", off, map[bool]string{true: "before", false: "after"}[before])
+					}
+				}
+			}
+			if !good {
+				ok = false
+				if why == "" || strings.HasPrefix(why, "Push never") {
+					why = "Push records a position that is not the length of the slice"
+				}
+				continue
+			}
+			for _, b := range push.Blocks {
+				if len(b.Instrs) == 0 {
+					continue
+				}
+				if _, isRet := b.Instrs[len(b.Instrs)-1].(*ssa.Return); isRet && !st.Block().Dominates(b) {
+					ok, why = false, "a path through Push returns without recording the position"
+				}
+			}
+		}
+		if ok {
+			why = "Push records len(slice) as the new element's position on every path"
+		}
+		c.ob("R-HEAPINDEX", "Push:position=len", push.Pos(), ok, why)
+	}
+	// --- Swap
+	if swap := method("Swap"); swap == nil || len(swap.Blocks) == 0 {
+		c.unresolved("Swap method of " + heapT.String())
+	} else if len(swap.Params) == 3 {
+		pi, pj := ssa.Value(swap.Params[1]), ssa.Value(swap.Params[2])
+		var elemStores []ssa.Instruction
+		eachInstr(swap, func(_ *ssa.BasicBlock, _ int, in ssa.Instruction) {
+			if st, ok := in.(*ssa.Store); ok {
+				if _, ok := st.Addr.(*ssa.IndexAddr); ok {
+					elemStores = append(elemStores, st)
+				}
+			}
+		})
+		covered := map[ssa.Value]bool{}
+		ok, why := true, ""
+		eachInstr(swap, func(_ *ssa.BasicBlock, _ int, in ssa.Instruction) {
+			st, isSt := in.(*ssa.Store)
+			if !isSt {
+				return
+			}
+			fa, isFA := st.Addr.(*ssa.FieldAddr)
+			if !isFA || !isIdx(fa) {
+				return
+			}
+			ld, isLd := fa.X.(*ssa.UnOp)
+			var slot ssa.Value
+			if isLd && ld.Op == token.MUL {
+				if ia, isIA := ld.X.(*ssa.IndexAddr); isIA {
+					slot = ia.Index
+				}
+			}
+			if slot != pi && slot != pj {
+				ok, why = false, "Swap stores a position into an element it did not take from slot i or j"
+				return
+			}
+			after := true // the element was read from its slot after the slots were exchanged
+			for _, es := range elemStores {
+				if !instrReaches(es, ld) || instrReaches(ld, es) {
+					after = false
+				}
+			}
+			want := slot
+			if !after {
+				want = pj
+				if slot == pj {
+					want = pi
+				}
+			}
+			if stripConv(st.Val) != want {
+				ok, why = false, "Swap records the wrong slot for an element (the element now in slot k must record k)"
+				return
+			}
+			covered[want] = true
+		})
+		if ok && !(covered[pi] && covered[pj]) {
+			ok, why = false, "Swap does not record the new position of both exchanged elements"
+		}
+		if len(elemStores) < 2 {
+			ok, why = false, "Swap does not exchange two slots"
+		}
+		if ok {
+			why = "both exchanged elements record the slot they now occupy"
+		}
+		c.ob("R-HEAPINDEX", "Swap:positions-follow-elements", swap.Pos(), ok, why)
+	}
+	// --- nobody else
+	n := 0
+	for _, f := range allFuncs(c, sp) {
+		if f.Name() == "Push" || f.Name() == "Swap" {
+			if rt := f.Signature.Recv(); rt != nil && types.Identical(rt.Type(), heapT) || (rt != nil && types.Identical(types.NewPointer(rt.Type()), heapT)) {
+				continue
+			}
+		}
+		eachInstr(f, func(_ *ssa.BasicBlock, _ int, in ssa.Instruction) {
+			st, isSt := in.(*ssa.Store)
+			if !isSt {
+				return
+			}
+			fa, isFA := st.Addr.(*ssa.FieldAddr)
+			if !isFA || !isIdx(fa) {
+				return
+			}
+			n++
+			k, isC := constInt(st.Val)
+			_, fresh := fa.X.(*ssa.Alloc)
+			c.ob("R-HEAPINDEX", fmt.Sprintf("%s:other-store#%d", relName(f.String()), n), st.Pos(), fresh || (isC && k < 0),
+				"outside Push/Swap the position field may only be set on a fresh element or to a negative 'not in the heap' mark")
+		})
 	}
 }
